@@ -144,11 +144,12 @@ def run_job(unit, job, cpath, outdir, tier, extra_defines=()):
     # fn only in the job that enforces fn; elsewhere it expands to nothing.
     wit_h = os.path.join(outdir, jname + '.wit.h')
     names = set()
-    for fn_ in (unit.get('spec', 'spec.h'), unit.get('harness', 'harness.h')):
-        try:
-            names |= set(re.findall(r'\b\w*WITNESS\(\s*(\w+)', open(os.path.join(unit['dir'], fn_)).read()))
-        except OSError:
-            pass
+    udir = os.path.join(VERIF, 'units')
+    for root_, _, files_ in os.walk(udir):
+        for fn_ in files_:
+            if fn_.endswith('.h'):
+                names |= set(re.findall(r'\b\w*WITNESS\(\s*(\w+)', open(os.path.join(root_, fn_)).read()))
+    names.discard('fn')
     with open(wit_h, 'w') as fo:
         for n_ in sorted(names):
             if n_ == job.get('enforce'):
@@ -183,6 +184,8 @@ def run_job(unit, job, cpath, outdir, tier, extra_defines=()):
     if job.get('unwind'):
         uw = job['unwind'][tier] if isinstance(job['unwind'], dict) else job['unwind']
         flags += ['--unwind', str(uw)]
+    for us in job.get('unwindset', []):
+        flags += ['--unwindset', us]
     if job.get('object_bits'):
         flags += ['--object-bits', str(job['object_bits'])]
     solver = job.get('solver', [])
